@@ -190,12 +190,18 @@ func init() {
 			}
 			o := histOpts{maxRows: 1}
 			ts := uint32(1600000000)
-			for i := 0; i < nt; i += 8 { // eight single-table writes per transaction
+			// every new table arrives in a two-table statement next to a table seen earlier: maps of A (seen) and B (new),
+			// rows of A, rows of B, rows of A again under the map already sent - whatever the size of the cache, the
+			// entry of A is needed right after B was looked up
+			for i := 1; i < nt; i++ {
 				ts++
-				u := hUnit{kind: "tx", ts: ts, begin: "BEGIN", closer: fmt.Sprintf("x%d", i)}
-				for k := i; k < i+8 && k < nt; k++ {
-					u.changes = append(u.changes, hChange{rows: genRows(r, h, o, k, ts, true)})
+				a := i - 1
+				if i > 4 && r.Bool() {
+					a = r.Intn(i)
 				}
+				u := hUnit{kind: "tx", ts: ts, begin: "BEGIN", closer: fmt.Sprintf("x%d", i)}
+				u.changes = append(u.changes, hChange{rows: genRows(r, h, o, a, ts, true)}, hChange{rows: genRows(r, h, o, i, ts, true)},
+					hChange{rows: genRows(r, h, o, a, ts, false)})
 				h.units = append(h.units, u)
 			}
 			for i := 0; i < 20; i++ { // multi-table statements: maps of A (seen long ago) and B (new), rows of A, rows of B
